@@ -3010,6 +3010,12 @@ impl KnowledgeGraph {
         &mut self,
         schema: RelationSchema,
     ) -> Result<(), String> {
+        // Same data-first rule as for persistent schemas: stored tuples must conform.
+        if let Some(existing) = self.engine.input_tuples.get(&schema.name) {
+            ValidationEngine::new()
+                .validate_existing_data(&schema, existing)
+                .map_err(|e| format!("{e}"))?;
+        }
         self.schema_catalog
             .register_or_update_session(schema)
             .map_err(|e| format!("{e}"))
